@@ -51,6 +51,12 @@ def record(bcode, inputs=(), max_ticks=4000, interrupt_at=None):
                 cpu.received_keyboard_interrupt = True
             before = st_of(cpu)
             pc = cpu.pc
+            # where a module-level handler would count the error: inside the module-level statement whose CALL led here
+            unwind = None
+            f_ = cpu.cur_frame
+            while f_ is not None and f_.prev_frame is not None:
+                unwind = f_.ret_addr - 1
+                f_ = f_.prev_frame
             irq = cpu.received_keyboard_interrupt
             old_ta = cpu.trapped_addr
             ins = op_code_to_instr.get(mod.code[pc])
@@ -92,7 +98,7 @@ def record(bcode, inputs=(), max_ticks=4000, interrupt_at=None):
             else:
                 ik = f'plain {cpu.pc}'
             stmt_txt = '-' if stmt is None else f'{stmt[0]} {stmt[1]}'
-            req = f'tick {code_len} {before} {ik} {stmt_txt}'
+            req = f'tick {code_len} {before} {ik} u{"-" if unwind is None else unwind} {stmt_txt}'
             if host is not None:
                 exp = f'host {host[0]} ' + st_of(cpu)
                 hosts.append((host[0], host[1], pc, opn))
